@@ -458,6 +458,9 @@ func ruleResolveWritesNothing(w *World, r *Report, rule string) {
 					if rcv, _, ok := methodCall(s); ok {
 						if fv := fieldOf(info, rcv); fv != nil && isSyncType(fv.Type()) {
 							if o := ownerOfField(w, fv); o == "scope" || o == "provider" {
+								if cal.Name() == "Add" && isPureCounter(w, fv) {
+									return true
+								}
 								switch cal.Name() {
 								case "Store", "LoadOrStore", "Swap", "CompareAndSwap", "Do", "Add":
 									ins = append(ins, w.canonField(fv))
